@@ -633,7 +633,7 @@ package ion
 //@ requires brCore(r) && bsOn(&r.bits, bitcodeBVM)
 //@ modifies r.lst, r.bits.pos, r.bits.state, r.bits.code, r.bits.null, r.bits.len, vcStreamOf(r.bits.in).cur
 //@ ensures[C03,C06,C10] err == nil ==> brLocal(r) && r.bits.state == bssBeforeValue
-//@ ensures[C03,C10] err == nil ==> r.lst == V1SystemSymbolTable
+//@ ensures[C03,C05,C10] err == nil ==> r.lst == V1SystemSymbolTable
 //@ ensures[C07,C10] old(bsAvail(&r.bits)) < 3 || old(bsByte(&r.bits, 2)) != 0xEA || old(bsByte(&r.bits, 0)) != 1 || old(bsByte(&r.bits, 1)) != 0 ==> err != nil
 //@ ensures[C03,C10] old(bsAvail(&r.bits)) >= 3 && old(bsByte(&r.bits, 2)) == 0xEA && old(bsByte(&r.bits, 0)) == 1 && old(bsByte(&r.bits, 1)) == 0 ==> err == nil
 //@ safe[C06]
@@ -1797,10 +1797,10 @@ package ion
 //@ requires r != nil
 //@ modifies *
 //@ invariant loop0 true
-//@ atcall[C10] Catalog.FindExact :: Catalog, string, int :: [name string, version int] a0 == cat && a1 == name && a2 == version && version >= 1 && name != "" && name != "$ion"
-//@ atcall[C10] Catalog.FindLatest :: Catalog, string :: [name string, version int] a0 == cat && a1 == name && cat.FindExact(name, version) == nil
-//@ atcall[C10] SymbolTable.MaxID :: SymbolTable :: [imp SharedSymbolTable, version int, maxID int64] maxID < 0 && a0 == imp && imp != nil && imp.Version() == version
-//@ atcall[C10] SharedSymbolTable.Adjust :: SharedSymbolTable, uint64 :: [imp SharedSymbolTable, version int, maxID int64] a0 == imp && a1 == uint64(maxID) && (maxID >= 0 || imp.Version() == version)
+//@ atcall[C05,C10] Catalog.FindExact :: Catalog, string, int :: [name string, version int] a0 == cat && a1 == name && a2 == version && version >= 1 && name != "" && name != "$ion"
+//@ atcall[C05,C10] Catalog.FindLatest :: Catalog, string :: [name string, version int] a0 == cat && a1 == name && cat.FindExact(name, version) == nil
+//@ atcall[C05,C10] SymbolTable.MaxID :: SymbolTable :: [imp SharedSymbolTable, version int, maxID int64] maxID < 0 && a0 == imp && imp != nil && imp.Version() == version
+//@ atcall[C05,C10] SharedSymbolTable.Adjust :: SharedSymbolTable, uint64 :: [imp SharedSymbolTable, version int, maxID int64] a0 == imp && a1 == uint64(maxID) && (maxID >= 0 || imp.Version() == version)
 //@ ensures[C10] err == nil && result != nil && cat == nil ==> vcIsBogusSST(result)
 //@ ensures[C10] err == nil && result != nil && cat == nil ==> vcAsBogusSST(result).version >= 1
 //@ ensures[C10] err == nil && result != nil && cat == nil ==> vcAsBogusSST(result).name != ""
